@@ -299,7 +299,7 @@ func (o *c01Oracle) AfterRun(w *World, op *Op, res *RunResult) {
 		return
 	}
 	if !res.OK() {
-		w.Fail("run-failed-on-runnable-world", "stage=%s err=%s", res.Stage, res.Err)
+		w.Fail("run-failed-on-runnable-world:"+res.FailClass(), "stage=%s err=%s", res.Stage, res.Err)
 		return
 	}
 	if len(res.Plan) > 0 {
